@@ -528,7 +528,7 @@ func RunC04(r *core.Run) {
 		var in []byte
 		switch rr.Intn(3) {
 		case 0:
-			in = gen.Msg(rr, gen.MsgOpts{MinHdrs: 1, MaxHdrs: 25, MultiNA: 30}).Raw
+			in = gen.Msg(rr, gen.MsgOpts{MinHdrs: 1, MaxHdrs: 25, MultiNA: 30, DupParams: true}).Raw
 		case 1:
 			in = gen.Mutate(rr, corpus[rr.Intn(len(corpus))], 4)
 		default:
